@@ -78,7 +78,9 @@ func (sh *Shared) sideOK(b *ssa.BasicBlock) bool {
 				break
 			}
 		}
-		if _, isJump := b.Instrs[len(b.Instrs)-1].(*ssa.Jump); !isJump {
+		switch b.Instrs[len(b.Instrs)-1].(type) {
+		case *ssa.Jump, *ssa.If:
+		default:
 			ok = false
 		}
 	}
@@ -96,7 +98,9 @@ func basicIntType(t interface{ String() string }) (int, bool) {
 	return 0, true
 }
 
-// tryIfConvert returns the join block when the branch was merged (phis of the join are already set)
+// tryIfConvert returns the join block when the branch was merged (phis of the join are already set).
+// Regions: chains/trees of single-predecessor pure blocks (covers a&&b&&c, a||b, if/else diamonds and
+// if-without-else triangles) that all re-join at one block J.
 func (e *Exec) tryIfConvert(fr *frame, b *ssa.BasicBlock, c *Term) (*ssa.BasicBlock, bool) {
 	if e.local != nil || e.ifc != nil || e.noIfConv {
 		return nil, false
@@ -105,24 +109,74 @@ func (e *Exec) tryIfConvert(fr *frame, b *ssa.BasicBlock, c *Term) (*ssa.BasicBl
 	if T == F {
 		return nil, false
 	}
-	single := func(x *ssa.BasicBlock) bool {
-		return len(x.Preds) == 1 && len(x.Succs) == 1 && x != b && e.sh.sideOK(x)
+	var cands []*ssa.BasicBlock
+	add := func(x *ssa.BasicBlock) {
+		for _, y := range cands {
+			if y == x {
+				return
+			}
+		}
+		if x != b {
+			cands = append(cands, x)
+		}
 	}
-	var J, sideT, sideF *ssa.BasicBlock
-	switch {
-	case single(T) && T.Succs[0] == F:
-		J, sideT = F, T
-	case single(F) && F.Succs[0] == T:
-		J, sideF = T, F
-	case single(T) && single(F) && T.Succs[0] == F.Succs[0]:
-		J, sideT, sideF = T.Succs[0], T, F
-	default:
-		return nil, false
+	add(F)
+	add(T)
+	for _, x := range []*ssa.BasicBlock{T, F} {
+		if len(x.Succs) == 1 {
+			add(x.Succs[0])
+		}
+		if len(x.Succs) == 2 {
+			add(x.Succs[0])
+			add(x.Succs[1])
+		}
 	}
-	if J == b || J == sideT || J == sideF {
-		return nil, false
+	for _, J := range cands {
+		if e.regionShape(b, J) {
+			if e.convertRegion(fr, b, c, J) {
+				return J, true
+			}
+			return nil, false
+		}
 	}
-	// a side consisting of only a jump with no phi influence is fine too
+	return nil, false
+}
+
+// regionShape: static check that every path from b's successors reaches J through at most a few
+// single-predecessor pure blocks
+func (e *Exec) regionShape(b, J *ssa.BasicBlock) bool {
+	key := [2]*ssa.BasicBlock{b, J}
+	if v, ok := e.sh.regionCache.Load(key); ok {
+		return v.(bool)
+	}
+	count := 0
+	var walk func(x *ssa.BasicBlock, depth int) bool
+	walk = func(x *ssa.BasicBlock, depth int) bool {
+		if x == J {
+			return true
+		}
+		count++
+		if depth > 5 || count > 8 || x == b || len(x.Preds) != 1 || !e.sh.sideOK(x) {
+			return false
+		}
+		for _, s := range x.Succs {
+			if !walk(s, depth+1) {
+				return false
+			}
+		}
+		return len(x.Succs) > 0
+	}
+	ok := walk(b.Succs[0], 0) && walk(b.Succs[1], 0) && count > 0
+	e.sh.regionCache.Store(key, ok)
+	return ok
+}
+
+type ifcEdge struct {
+	pred *ssa.BasicBlock
+	cond *Term
+}
+
+func (e *Exec) convertRegion(fr *frame, b *ssa.BasicBlock, c *Term, J *ssa.BasicBlock) bool {
 	ctx := &ifcCtx{}
 	e.ifc = ctx
 	saveSteps := e.steps
@@ -138,12 +192,15 @@ func (e *Exec) tryIfConvert(fr *frame, b *ssa.BasicBlock, c *Term) (*ssa.BasicBl
 				}
 			}
 		}()
-		run := func(side *ssa.BasicBlock, cond *Term) {
-			if side == nil {
+		var edges []ifcEdge
+		var run func(x *ssa.BasicBlock, from *ssa.BasicBlock, cond *Term)
+		run = func(x *ssa.BasicBlock, from *ssa.BasicBlock, cond *Term) {
+			if x == J {
+				edges = append(edges, ifcEdge{from, cond})
 				return
 			}
 			ctx.cond = cond
-			for _, ins := range side.Instrs[:len(side.Instrs)-1] {
+			for _, ins := range x.Instrs[:len(x.Instrs)-1] {
 				if phi, isPhi := ins.(*ssa.Phi); isPhi {
 					fr.regs[phi] = e.get(fr, phi.Edges[0])
 					continue
@@ -152,29 +209,28 @@ func (e *Exec) tryIfConvert(fr *frame, b *ssa.BasicBlock, c *Term) (*ssa.BasicBl
 				fr.cur = ins
 				e.execInstr(fr, ins)
 			}
-		}
-		run(sideT, c)
-		run(sideF, e.not(c))
-		// phis of J
-		predT, predF := b, b
-		if sideT != nil {
-			predT = sideT
-		}
-		if sideF != nil {
-			predF = sideF
-		}
-		kT, kF := -1, -1
-		for k, p := range J.Preds {
-			if p == predT && kT < 0 {
-				kT = k
-			} else if p == predF {
-				kF = k
+			switch t := x.Instrs[len(x.Instrs)-1].(type) {
+			case *ssa.Jump:
+				run(x.Succs[0], x, cond)
+			case *ssa.If:
+				c2 := e.get(fr, t.Cond).(*Term)
+				if c2.konst {
+					if c2.c == 1 {
+						run(x.Succs[0], x, cond)
+					} else {
+						run(x.Succs[1], x, cond)
+					}
+					return
+				}
+				run(x.Succs[0], x, e.and(cond, c2))
+				run(x.Succs[1], x, e.and(cond, e.not(c2)))
+			default:
+				panic(localFail{"unexpected terminator"})
 			}
 		}
-		if predT == predF {
-			return false
-		}
-		if kT < 0 || kF < 0 {
+		run(b.Succs[0], b, c)
+		run(b.Succs[1], b, e.not(c))
+		if len(edges) < 2 {
 			return false
 		}
 		var phis []*ssa.Phi
@@ -184,13 +240,31 @@ func (e *Exec) tryIfConvert(fr *frame, b *ssa.BasicBlock, c *Term) (*ssa.BasicBl
 			if !isPhi {
 				break
 			}
-			vt, vf := e.get(fr, phi.Edges[kT]), e.get(fr, phi.Edges[kF])
-			m, ok := e.mergeAny(c, vt, vf)
-			if !ok {
-				return false
+			var acc Value
+			for k := len(edges) - 1; k >= 0; k-- {
+				idx := -1
+				for pi, p := range J.Preds {
+					if p == edges[k].pred {
+						idx = pi
+						break
+					}
+				}
+				if idx < 0 {
+					return false
+				}
+				v := e.get(fr, phi.Edges[idx])
+				if acc == nil {
+					acc = v
+				} else {
+					m, ok := e.mergeAny(edges[k].cond, v, acc)
+					if !ok {
+						return false
+					}
+					acc = m
+				}
 			}
 			phis = append(phis, phi)
-			vals = append(vals, m)
+			vals = append(vals, acc)
 		}
 		for k, phi := range phis {
 			fr.regs[phi] = vals[k]
@@ -203,13 +277,13 @@ func (e *Exec) tryIfConvert(fr *frame, b *ssa.BasicBlock, c *Term) (*ssa.BasicBl
 			ctx.journal[k].c.v = ctx.journal[k].old
 		}
 		e.steps = saveSteps
-		return nil, false
+		return false
 	}
 	e.stats.ifConversions++
 	if debugIfc {
 		fmt.Fprintf(os.Stderr, "[ifc] %s block %d -> join %d cond %s\n", fr.fn, b.Index, J.Index, c.s)
 	}
-	return J, true
+	return true
 }
 
 // mergeAny: identical values merge trivially; otherwise scalars/structs/tuples via ite
